@@ -39,6 +39,14 @@ theorem loops_as_written (A : List Bool) (region : Arr Int) (r : Int) {β : Type
     regionIndexLoop region r A 0 0 = regionIndex A region r ∧ compressLoop A 0 0 x = compress A x :=
   ⟨regionIndexLoop_spec A region r, compressLoop_eq A x hx⟩
 
+/-- `BoxManager`: after ANY history of setInputBox / endInputBox / setKeywordBox / endKeyword /
+endSection calls (failed calls leave it unchanged and abort the fold), the index list of the
+active box (keyword box, else input box, else global box) meets the specification. -/
+theorem boxmanager_index_list_spec (D : Dims) (hD : DPos D) (A : List Bool) (ops : List MgrOp) (m : BoxMgr)
+    (h : ops.foldl (fun (s : Option BoxMgr) op => s.bind fun x => (x.step D op)) (some ⟨none, none⟩) = some m) :
+    IdxSpec A (boxSel D (m.active D)) (indexList D A (m.active D)) :=
+  BoxMgr.index_list_spec D hD A ops m h
+
 /-- `GridDims::getIJK` and `getGlobalIndex` are inverse to each other on the grid. -/
 theorem ijk_global_bij (D : Dims) (g i j k : Nat) (hi : i < D.nx) (hj : j < D.ny) :
     D.globalIndex (D.ijk g).1 (D.ijk g).2.1 (D.ijk g).2.2 = g ∧ D.ijk (D.globalIndex i j k) = (i, j, k) :=
@@ -191,6 +199,9 @@ example : DPos sampleD := by simp [DPos, sampleD]
 example : sampleA.length = sampleD.size := by decide
 example : indexList sampleD sampleA sampleB =
     [⟨2, 1, 1⟩, ⟨4, 3, 2⟩, ⟨7, 4, 4⟩, ⟨8, 5, 5⟩, ⟨11, 7, 7⟩] := by decide
+example : [MgrOp.setInput 1 2 0 1 0 1, .setKeyword 1 1 1 1 0 0, .endKeyword].foldl
+    (fun (s : Option BoxMgr) op => s.bind fun x => (x.step sampleD op)) (some ⟨none, none⟩) =
+    some ⟨some sampleB, none⟩ := by decide
 example : compressLoop sampleA 0 0 (List.range 12) = [0, 2, 3, 4, 7, 8, 9, 11] := by decide
 example : regionIndexLoop [⟨.deckValue, 5⟩, ⟨.deckValue, 7⟩, ⟨.deckValue, 5⟩] 5 [true, false, true, true] 0 0 =
     [⟨0, 0, 0⟩, ⟨3, 2, 3⟩] := by decide
